@@ -23,12 +23,25 @@ reachable or not), of reachable symbols, or be absent.  For the accepted ones th
 exercised with parse(text) and with parse(text, start_symbol_name=s) for every other nonterminal s, in
 particular the unreachable ones (documented argument of LLParser.parse: "to check how small parts of
 source text are parsed").
+
+Third dimension ('t' families): grammars that also contain ProdsTemplate symbols (ListProds with and without
+brackets / delimiter / final delimiter / optional, MapProds with and without brackets, ProdSequence), next to
+plain recursive or non-recursive symbols.  "For all grammars" includes the grammars written with the
+documented production templates, and the constructor must report a left-recursive one as GrammarIsRecursive
+(not with another exception type) whatever else the grammar contains -- the error report is built from all
+productions and all templates.  Spec: each template is replaced by the plain productions its class
+documentation describes (harness/c03_templates.py: expand), then left_recursive as before.  A template may be a
+bystander of a cycle among other symbols, be on the cycle itself (only a template without brackets can: its
+item / key / element symbol reaches the template symbol again, or an element of a ProdSequence is nullable),
+be unreachable from the start symbol, or be an item of another template.  The accepted ones are parsed on all
+strings over the tokens they use.
 """
 import multiprocessing
 import os
 from collections import Counter
 
 from harness import grammars as gr
+from harness import c03_templates as tp
 
 TERMINALS = ['x', 'y']
 POOL = ['A', 'AA', 'B', 'C']
@@ -82,7 +95,32 @@ def rule_text(tier):
             f"parses (all strings <= {MAX_TOKENS} tokens, until the first overrun) are run only for the first "
             f"{LR_PROBES_PER_TASK} such grammars (and until {LR_OVERRUNS_PER_TASK} overruns were seen) of each of the "
             f"{len(tasks_for(tier))} work units, because each overrun costs the whole budget. "
+            + template_rule_text(tier) +
             f"non-trivial = some production has a nullable nonterminal in front of another symbol (a nullable prefix)")
+
+
+def template_rule_text(tier):
+    fams = '; '.join(
+        f"{f['plain']} plain nonterminal(s) with <= {f['max_alts']} alternatives, RHS <= {f['max_rhs']}"
+        + (f", <= {f['max_total']} symbol occurrences" if f['max_total'] else '')
+        + " over the nonterminals, the token x and T0" + (" (T0 occurring in the plain part)" if f['t0_used'] else '')
+        + (", a second template T1 from a fixed list of 5 (sequence, list with delimiter only, bare list, map without "
+           "brackets, optional bracketed list; items x), T0 mentioning T1" if f['second'] else '')
+        + f", template enumeration level '{f['level']}', names from {f['pool']}, smart_factorization in "
+          f"{list(f['smarts'])}, inputs <= {f['full']} tokens (<= {f['short']} for the name assignments after the "
+          f"first / the second factorization setting)"
+        for f in template_families(tier))
+    return (f"Third dimension (grammars that also contain ProdsTemplate symbols), exhaustive within its bounds: every "
+            f"plain part as above in which a template symbol T0 may occur, T0 being every admissible ListProds (with / "
+            f"without brackets {tp.OPEN} {tp.CLOSE}, with / without delimiter {tp.DELIM}, allow_final_delimiter "
+            f"default / False, optional default / True), MapProds (with / without brackets, optional default / True; "
+            f"level 'thorough' also allow_final_delimiter=False and every value symbol, level 'quick' value = x) and "
+            f"ProdSequence (1 or 2 symbols) whose item / key / value symbols are x, a plain nonterminal, T0 itself "
+            f"(or T1), except the lists without delimiter whose item is nullable; x every injective assignment of "
+            f"names to the plain nonterminals and the template symbols (templates listed after / before the plain "
+            f"productions for even / odd assignments); spec = left-corner cycle in the plain grammar obtained by "
+            f"replacing each template by the productions its documentation describes; accepted grammars are parsed "
+            f"on every string over the tokens they use; families [{fams}]. ")
 
 
 # ---------------------------------------------------------------------------------------------
@@ -168,9 +206,14 @@ def is_parsing_error(e):
         return False
 
 
-def construct(G, start, terminals, smart):
-    """-> (status, parser or None, text); status: 'accepted' | GIR | 'other-exception' | 'budget'"""
-    kind, val, _ = gr.guarded(lambda: gr.make_parser(G, start, terminals, smart), wall_s=WALL_BUDGET)
+def construct(G, start, terminals, smart, TPL=None, tfirst=False):
+    """-> (status, parser or None, text); status: 'accepted' | GIR | 'other-exception' | 'budget'.
+    TPL: descriptions of the ProdsTemplate symbols of the grammar (harness.c03_templates), if any"""
+    if TPL:
+        make = lambda: tp.make_parser(G, TPL, start, terminals, smart, templates_first=tfirst)
+    else:
+        make = lambda: gr.make_parser(G, start, terminals, smart)
+    kind, val, _ = gr.guarded(make, wall_s=WALL_BUDGET)
     if kind == 'ok':
         return 'accepted', val, ''
     if kind == 'exc':
@@ -180,36 +223,42 @@ def construct(G, start, terminals, smart):
     return 'budget', None, str(val)
 
 
-def check_construction(G, start, terminals, smart, lr, hidden):
-    """-> (status, parser, fails[(clause, keysuffix, text)], diags[text])"""
-    status, parser, text = construct(G, start, terminals, smart)
+def check_construction(G, start, terminals, smart, lr, hidden, TPL=None, tfirst=False):
+    """-> (status, parser, fails[(clause, keysuffix, text)], diags[text]).
+    With TPL (grammar with ProdsTemplate symbols) lr / hidden are those of the spec grammar
+    tp.spec_grammar(G, TPL) and the failure classes get the suffix ':grammar-with-ProdsTemplate'"""
+    status, parser, text = construct(G, start, terminals, smart, TPL, tfirst)
     fails, diags = [], []
-    gs = gr.grammar_str(G)
+    gs = tp.grammar_str(G, TPL) if TPL else gr.grammar_str(G)
+    S = tp.spec_grammar(G, TPL) if TPL else G
+    wt = ':grammar-with-ProdsTemplate' if TPL else ''
     if status == 'accepted' and lr:
         cls = 'hidden-behind-nullable-prefix' if hidden else 'plain'
-        cyc = sorted(cyclic_symbols(G))
-        off = not (set(cyc) & gr.reachable(G, start))
+        cyc = sorted(cyclic_symbols(S))
+        off = not (set(cyc) & gr.reachable(S, start))
         fails.append(('raises_iff_recursive', f"accepted-left-recursive:{cls}"
-                      + (':cycle-unreachable-from-start-symbol' if off else ''),
+                      + (':cycle-unreachable-from-start-symbol' if off else '') + wt,
                       f"constructor accepts the left-recursive grammar [{gs}] (start {start}, smart_factorization="
                       f"{smart}); expected GrammarIsRecursive ({cls} left recursion: {', '.join(cyc)} can reach "
                       f"{'themselves' if len(cyc) > 1 else 'itself'} without consuming a token"
                       + ("; not reachable from the start symbol, but 'some symbol can reach itself' holds" if off else '')
                       + ')'))
     elif status == GIR and not lr:
-        fails.append(('raises_iff_recursive', 'rejected-non-recursive',
+        fails.append(('raises_iff_recursive', 'rejected-non-recursive' + wt,
                       f"constructor raises GrammarIsRecursive for [{gs}] (start {start}, smart_factorization={smart}) "
                       f"which has no left-corner cycle"))
     elif status == 'other-exception':
         if lr:
-            fails.append(('raises_iff_recursive', 'left-recursive-other-exception',
+            fails.append(('raises_iff_recursive', 'left-recursive-other-exception' + wt,
                           f"constructor raises {text} instead of GrammarIsRecursive for the left-recursive grammar "
-                          f"[{gs}] (start {start})"))
+                          f"[{gs}] (start {start}, smart_factorization={smart}); "
+                          f"{', '.join(sorted(cyclic_symbols(S)))} can reach "
+                          f"{'themselves' if len(cyclic_symbols(S)) > 1 else 'itself'} without consuming a token"))
         else:
             diags.append(f"constructor raises {text} for the well-formed non-recursive grammar [{gs}] (start {start}, "
                          f"smart_factorization={smart})")
     elif status == 'budget':
-        fails.append(('raises_iff_recursive', 'constructor-does-not-return',
+        fails.append(('raises_iff_recursive', 'constructor-does-not-return' + wt,
                       f"constructor neither returned nor raised ({text}) for [{gs}] (start {start})"))
     return status, parser, fails, diags
 
@@ -239,8 +288,11 @@ def check_parse(parser, tokens, lr, parse_start=None):
                               f"{shown} did not return or raise: {val}"), None
 
 
-def make_case(G, start, terminals, smart, tokens=None, parse_start=None):
+def make_case(G, start, terminals, smart, tokens=None, parse_start=None, TPL=None, tfirst=False):
     c = {'grammar': gr.to_json(G), 'start': start, 'terminals': list(terminals), 'smart_factorization': smart}
+    if TPL:
+        c['templates'] = TPL
+        c['templates_first'] = bool(tfirst)
     if tokens is not None:
         c['input'] = list(tokens)
     if parse_start is not None:
@@ -263,6 +315,8 @@ def _limit_memory():
 
 def work(task):
     tier, fam, part = task
+    if isinstance(fam, dict):
+        return work_templates(task)
     label, n_nt, terminals, max_alts, max_rhs, max_total, smarts, other_len, mode = fam
     with_unreachable = mode == 'unreachable'
     full = list(gr.all_strings(terminals, MAX_TOKENS))
@@ -344,10 +398,171 @@ def work(task):
     return cases, fails, hits, diags, stats, max_steps
 
 
+# ---------------------------------------------------------------------------------------------
+# third dimension ('t' families): grammars that also contain ProdsTemplate symbols
+# ---------------------------------------------------------------------------------------------
+
+T_POOL = ['A', 'AA', 'B']
+SECOND_TEMPLATES = [tp.seq_t('x'), tp.list_t(None, 'x', tp.DELIM, None), tp.list_t(None, 'x', None, None),
+                    tp.map_t(None, 'x', tp.ASSIGN, 'x', tp.DELIM, None),
+                    tp.list_t(tp.OPEN, 'x', tp.DELIM, tp.CLOSE, None, True)]
+
+
+def template_families(tier):
+    """label; plain: number of plain nonterminals; max_alts / max_rhs / max_total of the plain part;
+    t0_used: only the plain parts that mention T0; second: a second template T1; level of the template
+    enumeration; name pool; smart settings; full / short: max tokens for the first name assignment / the
+    others; units: work units"""
+    def fam(label, plain, max_alts, max_rhs, max_total, t0_used, second, level, pool, smarts, full, short, units):
+        return dict(label=label, plain=plain, max_alts=max_alts, max_rhs=max_rhs, max_total=max_total,
+                    t0_used=t0_used, second=second, level=level, pool=pool, smarts=smarts, full=full, short=short,
+                    units=units)
+    if tier == 'quick':
+        return [fam('t1', 1, 2, 2, None, False, False, 'quick', POOL, (True,), 3, 1, 16),
+                fam('t2', 2, 2, 2, 3, True, False, 'quick', T_POOL, (True,), 2, 1, 32),
+                fam('t1+t', 1, 2, 2, 2, False, True, 'quick', T_POOL, (True,), 3, 1, 16)]
+    return [fam('t1', 1, 2, 3, 4, False, False, 'thorough', POOL, (True, False), 3, 2, 64),
+            fam('t2', 2, 2, 2, 3, False, False, 'thorough', T_POOL, (True, False), 3, 2, 128),
+            fam('t1+t', 1, 2, 2, None, False, True, 'thorough', T_POOL, (True,), 3, 2, 64)]
+
+
+def template_grammars(fam):
+    """the (plain part, template descriptions) pairs of a family, canonical names N0.. / T0, T1; deterministic.
+    The plain productions are enumerated over the nonterminals, the token x and the template symbol T0 (which
+    they may use or not; t0_used: only those that do); T0 is every admissible description over the items x,
+    N0.., T0 itself and, in the families with a second template, T1 (then only the descriptions that mention
+    T1 are kept and T1 runs over SECOND_TEMPLATES)"""
+    core = [f"N{i}" for i in range(fam['plain'])]
+    items = ['x'] + core + ['T0'] + (['T1'] if fam['second'] else [])
+    configs = tp.template_configs(items, fam['level'])
+    if fam['second']:
+        configs = [t for t in configs if 'T1' in t['args']]
+    for shape in gr.enumerate_grammars(fam['plain'], ['x', 'T0'], fam['max_alts'], fam['max_rhs'], fam['max_total'],
+                                       reachable_only=True):
+        if fam['t0_used'] and not any('T0' in a for alts in shape.values() for a in alts):
+            continue
+        for t0 in configs:
+            if fam['second']:
+                for t1 in SECOND_TEMPLATES:
+                    yield shape, {'T0': t0, 'T1': t1}
+            else:
+                yield shape, {'T0': t0}
+
+
+def template_role(S, name, t):
+    """how the template symbol `name` relates to the left-corner cycles of the spec grammar S:
+    'no-cycle' | 'on-the-cycle' (a symbol the template generates can reach itself) | 'bystander-of-a-cycle'"""
+    C = cyclic_symbols(S)
+    if not C:
+        return 'no-cycle'
+    return 'on-the-cycle' if C & set(tp.expand(name, t)) else 'bystander-of-a-cycle'
+
+
+def work_templates(task):
+    tier, fam, part = task
+    smarts, full_len, short_len = fam['smarts'], fam['full'], fam['short']
+    terminals = tp.T_TERMINALS
+    symbols = [f"N{i}" for i in range(fam['plain'])] + ['T0'] + (['T1'] if fam['second'] else [])
+    assigns = tp.injective_assignments(symbols, fam['pool'])
+    cases, fails, hits, diags, stats = [], {}, Counter(), [], Counter()
+    max_steps = 0
+    lr_probed = lr_overruns = 0
+    strings = {}
+
+    def inputs_for(alphabet, n):
+        k = (tuple(alphabet), n)
+        if k not in strings:
+            strings[k] = list(gr.all_strings(alphabet, n))
+        return strings[k]
+
+    def fail(clause, ksuf, text, case):
+        key = f"C03.{clause}:{ksuf}"
+        size = len(repr(case))
+        cur = fails.get(key)
+        if cur is None or size < cur[3]:
+            fails[key] = (f"C03.{clause}", text, case, size)
+
+    for idx, (shape, tpl) in enumerate(template_grammars(fam)):
+        if idx % part[1] != part[0]:
+            continue
+        S0 = tp.spec_grammar(shape, tpl)
+        if tp.delimiterless_list_with_nullable_item(S0, tpl):
+            # restriction of ListProds (see the assumptions): not part of the space
+            stats['templates:skipped:delimiter-less-list-with-nullable-item'] += 1
+            continue
+        if not tp.well_formed(shape, tpl, 'N0', terminals):
+            stats['templates:generator-produced-ill-formed-grammar'] += 1      # checker error, see run()
+            continue
+        lr = gr.left_recursive(S0)
+        hidden = lr and not plain_recursive(S0)
+        nontrivial = has_nullable_prefix(S0)
+        events = [f"template:{tp.flavour(t)}:{template_role(S0, n, t)}" for n, t in tpl.items()]
+        if 'T0' not in gr.reachable(S0, 'N0'):
+            events.append('template:not-reachable-from-start-symbol:' + ('cycle' if lr else 'no-cycle'))
+        alphabet = tp.used_terminals(S0)
+        for ai, m in enumerate(assigns):
+            G, TPL = tp.rename(shape, tpl, m)
+            start = m['N0']
+            tfirst = ai % 2 == 1
+            if hidden:
+                for ev in hidden_orders(tp.spec_grammar(G, TPL)):
+                    hits['templates:' + ev] += 1
+            for smart in smarts:
+                for ev in events:
+                    hits[ev] += 1
+                cases.append((f"{tp.grammar_str(G, TPL)} / start {start} / smart={smart}"
+                              + (' / templates first' if tfirst else ''), nontrivial))
+                stats['templates:recursive' if lr else 'templates:non-recursive'] += 1
+                status, parser, fl, dg = check_construction(G, start, terminals, smart, lr, hidden, TPL, tfirst)
+                stats['templates:constructor:' + status] += 1
+                for clause, ksuf, text in fl:
+                    fail(clause, ksuf, text, make_case(G, start, terminals, smart, TPL=TPL, tfirst=tfirst))
+                diags.extend(dg[:1] if len(diags) < 5 else [])
+                if status != 'accepted':
+                    continue
+                if lr:
+                    if lr_probed >= LR_PROBES_PER_TASK or lr_overruns >= LR_OVERRUNS_PER_TASK:
+                        stats['accepted-left-recursive:parses-not-run'] += 1
+                        continue
+                    lr_probed += 1
+                first = ai == 0 and smart is smarts[0]
+                for w in inputs_for(alphabet, MAX_TOKENS if lr else full_len if first else short_len):
+                    outcome, steps, fl1, dg1 = check_parse(parser, w, lr)
+                    stats['templates:parses'] += 1
+                    stats['templates:parse:' + outcome] += 1
+                    if fl1 is not None:
+                        fail(fl1[0], fl1[1] + ':grammar-with-ProdsTemplate',
+                             f"[{tp.grammar_str(G, TPL)}] (start {start}, smart_factorization={smart}): " + fl1[2],
+                             make_case(G, start, terminals, smart, w, TPL=TPL, tfirst=tfirst))
+                        lr_overruns += 1 if lr else 0
+                        break       # one overrun per grammar is enough (each costs the whole budget)
+                    max_steps = max(max_steps, steps)
+                    if dg1 and len(diags) < 5:
+                        diags.append(f"[{tp.grammar_str(G, TPL)}] {dg1}")
+    return cases, fails, hits, diags, stats, max_steps
+
+
+def template_reach_events():
+    ev = []
+    for fl in tp.FLAVOURS:
+        ev.append(f"template:{fl}:no-cycle")
+        ev.append(f"template:{fl}:bystander-of-a-cycle")
+        if fl in tp.FLAVOURS_THAT_CAN_BE_ON_A_CYCLE:
+            ev.append(f"template:{fl}:on-the-cycle")
+    ev += ['template:not-reachable-from-start-symbol:cycle', 'template:not-reachable-from-start-symbol:no-cycle',
+           'templates:hidden-recursion:nullable-sorts-before-recursive',
+           'templates:hidden-recursion:nullable-sorts-after-recursive']
+    return ev
+
+
 def tasks_for(tier):
     out = []
     for fam in families(tier):
         n = 1 if fam[1] == 1 else 64
+        for i in range(n):
+            out.append((tier, fam, (i, n)))
+    for fam in template_families(tier):
+        n = fam['units']
         for i in range(n):
             out.append((tier, fam, (i, n)))
     return out
@@ -389,6 +604,13 @@ def run(b):
                      'unreachable-symbols:cycle-only-among-unreachable:indirect',
                      'unreachable-symbols:cycle-only-among-unreachable:hidden',
                      'parse:start_symbol_name-unreachable-from-constructor-start-symbol'])
+    if stats['templates:generator-produced-ill-formed-grammar']:
+        b.error("the generator of grammars with ProdsTemplate symbols produced ill-formed grammars")
+    if stats['templates:constructor:accepted'] == 0 or stats['templates:parses'] == 0:
+        b.error("no grammar with ProdsTemplate symbols was accepted / parsed")
+    if stats['templates:recursive'] == 0 or stats['templates:non-recursive'] == 0:
+        b.error("the grammars with ProdsTemplate symbols did not contain both recursive and non-recursive ones")
+    b.require_reach(template_reach_events())
 
 
 # ---------------------------------------------------------------------------------------------
@@ -399,18 +621,26 @@ def replay_case(case):
     G = gr.from_json(case['grammar'])
     start, terminals, smart = case['start'], case['terminals'], case.get('smart_factorization', True)
     observed = []
-    if not gr.well_formed(G, start, terminals):
-        return True, ['grammar is not well-formed: outside the quantifier']
-    lr = gr.left_recursive(G)
-    hidden = lr and not plain_recursive(G)
-    status, parser, fails, diags = check_construction(G, start, terminals, smart, lr, hidden)
+    TPL, tfirst = case.get('templates') or None, bool(case.get('templates_first'))
+    if TPL:
+        if not tp.well_formed(G, TPL, start, terminals):
+            return True, ['grammar with templates is not well-formed: outside the quantifier']
+        S = tp.spec_grammar(G, TPL)
+        observed.append(f"the templates stand for: {gr.grammar_str({x: S[x] for x in S if x not in G})}")
+    else:
+        if not gr.well_formed(G, start, terminals):
+            return True, ['grammar is not well-formed: outside the quantifier']
+        S = G
+    lr = gr.left_recursive(S)
+    hidden = lr and not plain_recursive(S)
+    status, parser, fails, diags = check_construction(G, start, terminals, smart, lr, hidden, TPL, tfirst)
     observed.append(f"spec left_recursive = {lr}; constructor: {status}")
     holds = not fails
     observed.extend(f[2] for f in fails)
     observed.extend(diags)
     if status == 'accepted' and case.get('input') is not None:
         ps = case.get('parse_start_symbol_name')
-        if ps is not None and ps not in G:
+        if ps is not None and ps not in S:
             return holds, observed + [f"parse start symbol {ps!r} is not a nonterminal of the grammar: parse not run"]
         outcome, steps, fl, dg = check_parse(parser, case['input'], lr, ps)
         observed.append(f"parse({gr.text_of(case['input'])!r}"
